@@ -7,6 +7,7 @@ mod c12;
 mod c13;
 mod c14;
 mod c16;
+mod c17;
 mod core;
 mod auto;
 mod logcap;
@@ -27,6 +28,7 @@ fn main() {
         "c13" => c13::run(&args),
         "c14" => c14::run(&args),
         "c16" => c16::run(&args),
+        "c17" => c17::run(&args),
         "rxprobe" => {
             // vp rxprobe <pattern> <escaped haystack>: what the regex engines say
             let pat = args.rest.get(0).cloned().unwrap_or_default();
